@@ -214,7 +214,9 @@ func (b *broker) publish(pub *wamp.Session, msg *wamp.Publish) {
 			abortMsg.Details = wamp.Dict{}
 			abortMsg.Details[wamp.OptMessage] = ErrPPTNotSupportedByPeer.Error()
 			b.trySend(pub, &abortMsg)
-			pub.Close()
+			// The peer is closed by the session's message handler, which may be
+			// using it right now; tell that handler to end the session.
+			pub.EndRecv(abortedGoodbye)
 
 			return
 		}
